@@ -742,6 +742,8 @@ def _backend_worker(args):
                         else:
                             emu = ec.ristretto_from_uniform_bytes(u)
                         why = "; the output %s what RFC 9380 gives when b_1.. are computed with DST = b_0 instead of H(\"H2C-OVERSIZE-DST-\"||ctx)" % ("EQUALS" if emu == got else "does not equal")
+                        # the known finding F6 is exactly this deviation: anything else with an oversized context is a different violation
+                        rest += "/deviation=f6-dst-is-b0" if (emu == got and r == 0) else "/deviation=other"
                     fail(fname, "%s/%s" % (hn, clabel), rest, "ret %d got %s want %s (%s, DST = %d context bytes); output is %s%s" %
                          (r, got.hex(), want.hex(), ("encode_to_curve", "hash_to_curve", "hash_to_ristretto255", "hash_to_ristretto255")[fi], len(dst), member, why))
     # ---- structured results: near-identity outputs must be returned, not reported as the identity
